@@ -355,6 +355,14 @@ func (cs *clientStream) SendMsg(m interface{}) error {
 	}
 
 	cs.wErr = writeProtoMessage(cs.w, cs.codec, m, false)
+	if cs.wErr != nil {
+		if done, _ := cs.readErrorIfDone(); done {
+			// The call completed while this message was being written. As
+			// for any send on a finished stream, report EOF: the status is
+			// for RecvMsg to report.
+			return io.EOF
+		}
+	}
 	return cs.wErr
 }
 
@@ -437,8 +445,18 @@ func (cs *clientStream) doHttpCall(transport http.RoundTripper, req *http.Reques
 
 	var rErr error
 	rMuHeld := false
+	var reply *http.Response
 
 	defer func() {
+		if reply != nil {
+			// Drain the reply only after the stream has been marked done and
+			// the request pipe closed (and rMu released): the server may be
+			// waiting for the end of the request body before it ends the reply.
+			defer func() {
+				ioutil.ReadAll(reply.Body)
+				reply.Body.Close()
+			}()
+		}
 		if !rMuHeld {
 			cs.rMu.Lock()
 		}
@@ -473,15 +491,13 @@ func (cs *clientStream) doHttpCall(transport http.RoundTripper, req *http.Reques
 		cs.ready.Done()
 	}
 
-	reply, err := transport.RoundTrip(req.WithContext(cs.ctx))
+	var err error
+	reply, err = transport.RoundTrip(req.WithContext(cs.ctx))
 	if err != nil {
+		reply = nil
 		onReady(statusFromContextError(err), nil)
 		return
 	}
-	defer func() {
-		ioutil.ReadAll(reply.Body)
-		reply.Body.Close()
-	}()
 
 	if len(cs.copts.Peer) > 0 {
 		cs.copts.SetPeer(getPeer(cs.baseUrl, reply.TLS))
